@@ -75,6 +75,12 @@ def generate(rng, tier, n):
     import props.c10_build as B
     for k in range(B.count()):
         out.append(Case(f"(silent {k})", ("construction", B._S[k].__name__), "exhaustive"))
+    # flatten over generator-valued attributes: inner elements must be consumed on demand too
+    for _ in range(max(20, n // 20)):
+        objs = [[rng.randrange(0, 4) for _ in range(rng.randrange(0, 5))] for _ in range(rng.randrange(1, 4))]
+        lit = sorted(rng.sample(range(0, 4), rng.randrange(1, 3)))
+        line = "(flat (objs " + " ".join("(" + " ".join(map(str, xs)) + ")" for xs in objs) + ") (lit " + " ".join(map(str, lit)) + "))"
+        out.append(Case(line, ("flatten-generator",), "random"))
     while len(out) < n:
         q = G.gen_query(rng, quantifiers=False)
         ops = G.cond_ops(q["cond"])
@@ -84,7 +90,7 @@ def generate(rng, tier, n):
 
 
 def revive(case: Case) -> Case:
-    if case.line.startswith("(silent"):
+    if case.line.startswith("(silent") or case.line.startswith("(flat"):
         return case
     if case.payload is None:
         case.payload = G.parse_query(case.line)
@@ -101,6 +107,8 @@ def shrink(case: Case):
 def nontrivial(case: Case, spec: str) -> bool:
     if case.line.startswith("(silent"):
         return True
+    if case.line.startswith("(flat"):
+        return not spec.startswith("n=0 ")
     m = re.match(r"n=(\d+) ", spec)
     if not m or int(m.group(1)) < 2:
         return False
@@ -140,10 +148,68 @@ def _consume(q, k, which=0):
         except StopIteration:
             break
         rows.append(G.show_row((r,)) if single else G.show_row(tuple(r[kk] for kk in sel)))
-    return silent, rows, [pulls[n] for n in order]
+    pulled = [pulls[n] for n in order]
+    if k is not None:
+        # the consumer stops here (iterator abandoned); evaluating the SAME query object again must give the full
+        # sequence, of which the k results above are a prefix
+        if hasattr(it, "close"):
+            it.close()
+        again = [G.show_row((r,)) if single else G.show_row(tuple(r[kk] for kk in sel)) for r in query.evaluate()]
+        _consume.last_again = again
+    return silent, rows, pulled
+
+
+class _Holder:
+    """user object whose `items` attribute is a one-shot generator (a lazily produced nested domain)"""
+    def __init__(self, i, xs, counts):
+        self.i = i
+        def gen():
+            for v in xs:
+                counts[i] += 1
+                yield v
+        self.items = gen()
+
+
+def _flat(line: str) -> str:
+    from krrood.entity_query_language.entity import let, entity, contains, flatten
+    from krrood.entity_query_language.quantify_entity import an
+    s = G.parse_sexp(line)
+    d = {p[0]: p[1:] for p in s[1:]}
+    objs = [[int(v) for v in xs] for xs in d["objs"]]
+    lit = [int(v) for v in d["lit"]]
+    total = sum(1 for xs in objs for v in xs if v in lit)
+    parts = []
+    ok = True
+    full = None
+    for k in list(range(total + 2)) + [None]:
+        counts = [0] * len(objs)
+        hs = [_Holder(i, xs, counts) for i, xs in enumerate(objs)]
+        x = let(_Holder, hs, name="x")
+        q = an(entity(x, contains(list(lit), flatten(x.items))))
+        silent = sum(counts) == 0
+        rows = []
+        it = iter(q.evaluate())
+        while k is None or len(rows) < k:
+            try:
+                rows.append(next(it).i)
+            except StopIteration:
+                break
+        if k is None:
+            full = rows
+            break
+        ok = ok and silent
+        parts.append((k, rows, list(counts)))
+    prefix_ok = all(rows == full[:k] for k, rows, _ in parts)
+    return (f"silent={int(ok)} prefix={int(prefix_ok)} n={len(full)} "
+            + " ".join(f"k{k}:[" + ",".join(map(str, c)) + "]" for k, _, c in parts))
 
 
 def _one(case: Case) -> str:
+    if case.line.startswith("(flat"):
+        try:
+            return _flat(case.line)
+        except Exception as e:  # noqa: BLE001
+            return "exc:" + type(e).__name__
     if case.line.startswith("(silent"):
         import props.c10_build as B
         return B.run(int(case.line.split()[1].rstrip(")")))
@@ -157,7 +223,7 @@ def _one(case: Case) -> str:
         for k in range(n + 1):
             s_k, rows_k, p_k = _consume(q, k, which)
             silent = silent and s_k
-            prefix_ok = prefix_ok and rows_k == full[:k]
+            prefix_ok = prefix_ok and rows_k == full[:k] and _consume.last_again == full
             parts.append(f"k{k}:[" + ",".join(map(str, p_k)) + "]")
         return (f"silent={int(silent)} prefix={int(prefix_ok)} n={n} " + " ".join(parts)
                 + " end:[" + ",".join(map(str, endp)) + "]")
